@@ -316,6 +316,8 @@ def run_harness(fn, name=None, cfg=None, solver_timeout_ms=10000, max_paths=2000
     def on_check(label, goal):
         ob = Obligation(name, label, res.paths)
         ob.goal = (str(goal)[:300])
+        if z3.is_false(goal) and ctx.ghost.get("last_exc"):
+            ob.goal = "False  [escaping exception: %s]" % ctx.ghost.get("last_exc")
         ob.pc_size = len(ctx.pc)
         t0 = time.time()
         bad = label_bad.get(label, 0)
